@@ -32,7 +32,7 @@ ASSUMPTIONS = [
 def scalar_of(s):
     kind, v = s
     return {"int": int, "float": float, "np_int64": np.int64, "np_int32": np.int32, "np_float64": np.float64,
-            "np_float32": np.float32, "np_int16": np.int16, "np_int8": np.int8, "np_uint8": np.uint8, "np_uint16": np.uint16}[kind](v)
+            "np_float32": np.float32, "np_float16": np.float16, "np_int16": np.int16, "np_int8": np.int8, "np_uint8": np.uint8, "np_uint16": np.uint16}[kind](v)
 
 
 def eps_of(dtype) -> float:
@@ -173,7 +173,11 @@ GENERAL_FLOAT = [1.5, 0.1, 3.3, 2.5, 1e-3, 1e3, 0.7, 1 / 3]
 
 @st.composite
 def scalars(draw):
-    cls = draw(st.sampled_from(["pow2", "pow2", "int", "float", "narrow"]))
+    cls = draw(st.sampled_from(["pow2", "pow2", "int", "float", "narrow", "narrow_float"]))
+    if cls == "narrow_float":
+        # single / half precision numpy scalars whose square (or inverse) is not representable in their own type
+        return list(draw(st.sampled_from([("np_float16", 300.0), ("np_float16", 0.001953125), ("np_float32", 3.0), ("np_float32", 1e20), ("np_float32", 2.0 ** -70),
+                                          ("np_float16", 3.0), ("np_float32", 0.1)])))
     if cls == "narrow":
         # numpy integer scalars whose square (or product with the contents) leaves their own type
         kind, v = draw(st.sampled_from([("np_int8", 100), ("np_int8", 12), ("np_int16", 200), ("np_int16", 1000), ("np_uint8", 200),
@@ -352,6 +356,27 @@ def check_refusals(case, ctx: Ctx):
     ctx.label("refusal_" + kind)
     ctx.nt()
     require(not config.free_arithmetics, "free_arithmetics_leaked", "")
+    prelude = case.get("prelude")
+    if prelude:
+        # a free-arithmetics block entered and left earlier (normally / through a failing operation / nested):
+        # afterwards everything below is refused as usual
+        class _Boom(Exception):
+            pass
+
+        try:
+            with config.enable_free_arithmetics():
+                if prelude == "nested":
+                    with config.enable_free_arithmetics(False):
+                        pass
+                if prelude in ("exception", "nested"):
+                    raise _Boom()
+        except _Boom:
+            pass
+        leaked = bool(config.free_arithmetics)
+        if leaked:
+            config.free_arithmetics = False  # do not let one failing case change the next ones
+        require(not leaked, "free_arithmetics_leaked", f"after a block left by {prelude}")
+        ctx.label("after_free_block_" + prelude)
     other = h.copy()
     if kind == "h*h":
         ctx.refused("h * h", lambda: h * other)
@@ -392,7 +417,8 @@ def check_refusals(case, ctx: Ctx):
 def refusal_cases(draw, tier="quick"):
     kind = draw(st.sampled_from(["h*h", "h/h", "c/h", "negative", "negative", "array", "list", "array0d"]))
     spec = draw(hgen.hist_spec(dims=(1, 2, 3), dtypes=["int64", "float64", "int32", "float32"], adaptive=False, allow_zero=draw(st.booleans())))
-    return {"kind": kind, "spec": spec, "c": draw(st.sampled_from([-1, -2.5, -0.5, np.float64(-3.0).item()]))}
+    return {"kind": kind, "spec": spec, "c": draw(st.sampled_from([-1, -2.5, -0.5, np.float64(-3.0).item()])),
+            "prelude": draw(st.sampled_from([None, None, "normal", "exception", "nested"]))}
 
 
 FINDINGS = []
